@@ -769,6 +769,11 @@ let conn_case (line : string) : string =
                 | RFail -> "err"
                 | REof -> if !closed then "eof" else "timeout"
                 | RTooLarge -> "toolarge") :: !out
+          | "Q" ->
+              (* send_raw: the bytes as one frame *)
+              let data = bytes_of_hex (next t) in
+              if not connected then out := "err state" :: !out else
+              (wrote := !wrote @ [frame Distribution data]; out := "ok" :: !out)
           | "W" ->
               (* receive_raw: the next frame's bytes, ticks included *)
               if not connected then out := "state" :: !out else
